@@ -219,7 +219,7 @@ def run(rep):
         checks = [
             ('pattern matched', dv.matched_conds(cs)),
             ('method admitted', dv.method_ok_conds(cs)),
-            ('route is a branch', has_cond(cs, lambda t: norm(t) == '%s.is_branch' % rv, True)),
+            ('route is a branch', has_cond(cs, lambda t: dv.is_route_attr(t, 'is_branch'), True)),
             ('path is not canonical', holds(cs, is_noncanonical)),
             ('redirect mode', holds(cs, lambda t: is_mode(t, 'S_REDIRECT'))),
         ]
@@ -273,8 +273,8 @@ def run(rep):
                   'the redirect response is not returned directly', app, rst)
         np_branch = argn(npc, 'is_branch', 1)
         ok = np_path is not None and dv.is_request_attr(np_path, 'path') and norm(np_path) == norm(dv.match_call.args[0]) and np_branch is not None and \
-            (norm(np_branch) == '%s.is_branch' % rv or
-             (isinstance(np_branch, ast.Constant) and np_branch.value is True and has_cond(dv.conds(nps), lambda t: norm(t) == '%s.is_branch' % rv, True)))
+            (dv.is_route_attr(np_branch, 'is_branch') or
+             (isinstance(np_branch, ast.Constant) and np_branch.value is True and has_cond(dv.conds(nps), lambda t: dv.is_route_attr(t, 'is_branch'), True)))
         rep.check('R07.a', fkey(f, 'canonical form'), ok, 'canonical path = normalize_path(request path, route.is_branch)' if ok else
                   'normalize_path is not applied to (url_path, route.is_branch)', app, nps)
         # strict
@@ -283,7 +283,7 @@ def run(rep):
         def says(cs_, pred, want=True):
             return any(pred(t) is not None and (pred(t) is p) is want for t, p in cs_)
         is_strict = lambda t: is_mode(t, 'S_STRICT')
-        is_branch_t = lambda t: True if norm(t) == '%s.is_branch' % rv else None
+        is_branch_t = lambda t: True if dv.is_route_attr(t, 'is_branch') else None
         # entry points of the region "the mode is strict and the path is not canonical"
         region = [nid for nid in bnodes if says(dv.branch_conds(nid, full=True), is_strict) and says(dv.branch_conds(nid, full=True), is_noncanonical)]
         strict_t = [n for n in region if not any(n in cfg.reach([m], avoid=dv.head, include_src=False) for m in region if m != n)]
@@ -322,6 +322,124 @@ def run(rep):
 
         # ---- R07.b -----------------------------------------------------------
         arg = rc.args[0]
+        # A Location assembled by a helper of the analysed tree (``location = build_location(request, norm_path)``): the
+        # helper's assignments and returns are read as assignments of dispatch -- parameters replaced by the arguments, the
+        # helper's locals renamed apart, constants of the helper's module folded where it is another module -- so that the
+        # pieces below are judged on the text that is actually concatenated.  Only helpers that do nothing but bind locals
+        # and return (inside if / try arms at most) are followed; anything else stays the opaque call it is.
+        import copy as _copy
+        extra, _hn = [], [0]
+        _disp_locals = set(n.id for n in walk_body(f.node) if isinstance(n, ast.Name) and isinstance(n.ctx, (ast.Store, ast.Del))) | \
+            set(x.arg for x in f.node.args.args + f.node.args.kwonlyargs)
+
+        def all_stmts():
+            return list(stmts_of(f.node)) + extra
+
+        def _ends(stmts):
+            if not stmts:
+                return False
+            l_ = stmts[-1]
+            if isinstance(l_, ast.Return):
+                return l_.value is not None
+            if isinstance(l_, ast.If):
+                return _ends(l_.body) and _ends(l_.orelse)
+            if isinstance(l_, ast.Try):
+                return not l_.finalbody and (_ends(l_.orelse) if l_.orelse else _ends(l_.body)) and all(_ends(h.body) for h in l_.handlers)
+            return False
+
+        def expand_helper(call, target, mod, depth=0):
+            if depth > 3 or not isinstance(call.func, ast.Name) or any(isinstance(x, ast.Starred) for x in call.args) or \
+                    any(k.arg is None for k in call.keywords):
+                return False
+            name = call.func.id
+            if mod is app and name in _disp_locals:
+                return False
+            hm, hq = mod, name
+            if name not in mod.functions:
+                hm, hq = mod._moved(name)
+                if hm is None or hm.external:
+                    return False
+            fi_ = hm.functions.get(hq)
+            if fi_ is None or '.' in hq or len(hm.assigns.get(hq, [])) != 1 or not isinstance(fi_.node, ast.FunctionDef) or fi_.node.decorator_list:
+                return False
+            fn = fi_.node
+            a_ = fn.args
+            if a_.vararg or a_.kwarg or a_.kwonlyargs or a_.posonlyargs or len(call.args) > len(a_.args):
+                return False
+            params = [x.arg for x in a_.args]
+            bind = dict(zip(params, call.args))
+            for k in call.keywords:
+                if k.arg not in params or k.arg in bind:
+                    return False
+                bind[k.arg] = k.value
+            if set(bind) != set(params):
+                return False          # defaults are not followed
+            body = fn.body[1:] if fn.body and isinstance(fn.body[0], ast.Expr) and isinstance(fn.body[0].value, ast.Constant) else fn.body
+            if not _ends(body):
+                return False
+            for n in ast.walk(fn):
+                if n is not fn and isinstance(n, (ast.FunctionDef, ast.AsyncFunctionDef, ast.ClassDef, ast.Lambda, ast.ListComp, ast.SetComp,
+                                                  ast.DictComp, ast.GeneratorExp, ast.Yield, ast.YieldFrom, ast.Await, ast.Global, ast.Nonlocal,
+                                                  ast.NamedExpr)):
+                    return False
+            stores = set(n.id for st in body for n in ast.walk(st) if isinstance(n, ast.Name) and isinstance(n.ctx, (ast.Store, ast.Del)))
+            if stores & set(params):
+                return False
+            _hn[0] += 1
+            rename = dict((n, 'h%d__%s' % (_hn[0], n)) for n in stores)
+
+            class _S(ast.NodeTransformer):
+                def visit_Name(self_, n):
+                    if n.id in bind:
+                        return _copy.deepcopy(bind[n.id])
+                    if n.id in rename:
+                        return ast.copy_location(ast.Name(id=rename[n.id], ctx=n.ctx), n)
+                    if hm is not app and isinstance(n.ctx, ast.Load):
+                        v_ = repo.try_fold(n, hm)
+                        if isinstance(v_, str):
+                            return ast.copy_location(ast.Constant(value=v_), n)
+                    return n
+
+            def sub(e):
+                return ast.fix_missing_locations(_S().visit(_copy.deepcopy(e)))
+            out = []
+
+            def emit(tname, v, like):
+                if isinstance(v, ast.Call) and isinstance(v.func, ast.Name):
+                    mark = len(extra)
+                    if expand_helper(v, tname, hm, depth + 1):
+                        out.extend(extra[mark:])
+                        del extra[mark:]
+                        return
+                st_ = ast.Assign(targets=[ast.Name(id=tname, ctx=ast.Store())], value=v)
+                out.append(ast.fix_missing_locations(ast.copy_location(st_, like)))
+
+            def walk(stmts):
+                for s_ in stmts:
+                    if isinstance(s_, ast.Assign) and len(s_.targets) == 1 and isinstance(s_.targets[0], ast.Name):
+                        emit(rename[s_.targets[0].id], sub(s_.value), s_)
+                    elif isinstance(s_, ast.Return) and s_.value is not None:
+                        emit(target, sub(s_.value), s_)
+                    elif isinstance(s_, ast.If):
+                        if not (walk(s_.body) and walk(s_.orelse)):
+                            return False
+                    elif isinstance(s_, ast.Try) and not s_.finalbody and not any(h.name for h in s_.handlers):
+                        if not (walk(s_.body) and all(walk(h.body) for h in s_.handlers) and walk(s_.orelse)):
+                            return False
+                    else:
+                        return False
+                return True
+            if not walk(body):
+                return False
+            extra.extend(out)
+            return True
+        _e = arg
+        if isinstance(_e, ast.Name):
+            _src = [s.value for s in stmts_of(f.node) if isinstance(s, ast.Assign) and norm(s.targets[0]) == _e.id]
+            if len(_src) == 1:
+                _e = _src[0]
+        if isinstance(_e, ast.Call) and expand_helper(_e, 'h0__location', app):
+            arg = ast.copy_location(ast.Name(id='h0__location', ctx=ast.Load()), _e)
 
         _PCT, _BRACE = re.compile(r'%(?:s|r|d|%)'), re.compile(r'\{([A-Za-z_]\w*)?\}|\{\{|\}\}')
 
@@ -369,7 +487,7 @@ def run(rep):
             if depth > 8:
                 return [e]
             if isinstance(e, ast.Name):
-                srcs = [s.value for s in stmts_of(f.node) if isinstance(s, ast.Assign) and norm(s.targets[0]) == e.id]
+                srcs = [s.value for s in all_stmts() if isinstance(s, ast.Assign) and norm(s.targets[0]) == e.id]
                 if len(srcs) == 1 and e.id not in taint_roots:
                     return pieces(srcs[0], depth + 1)
                 return [e]
@@ -418,7 +536,7 @@ def run(rep):
         grew = True
         while grew:
             grew = False
-            for s_ in stmts_of(f.node):
+            for s_ in all_stmts():
                 if isinstance(s_, ast.Assign) and len(s_.targets) == 1 and isinstance(s_.targets[0], ast.Name) and s_.targets[0].id not in tainted_names \
                         and not (isinstance(s_.value, ast.Call) and call_tail(s_.value) in QUOTERS) \
                         and (req_path in norm(s_.value) or names_loaded(s_.value) & tainted_names):
@@ -435,7 +553,7 @@ def run(rep):
         grew = True
         while grew:
             grew = False
-            for s_ in stmts_of(f.node):
+            for s_ in all_stmts():
                 if isinstance(s_, ast.Assign) and len(s_.targets) == 1 and isinstance(s_.targets[0], ast.Name) and \
                         s_.targets[0].id not in qvars and ('query_string' in norm(s_.value) or names_loaded(s_.value) & qvars):
                     qvars.add(s_.targets[0].id)
@@ -470,6 +588,9 @@ def run(rep):
                 return False
             if norm(e) == 'request.query_string' or (selfname and isinstance(e, ast.Name) and e.id == selfname):
                 return True
+            if isinstance(e, ast.Name) and e.id != selfname and e.id not in taint_roots:
+                one = [s_.value for s_ in all_stmts() if isinstance(s_, ast.Assign) and norm(s_.targets[0]) == e.id]
+                return len(one) == 1 and query_form_ok(one[0], selfname, depth + 1)
             if isinstance(e, ast.Call) and isinstance(e.func, ast.Attribute) and e.func.attr == 'decode':
                 return query_form_ok(e.func.value, selfname, depth + 1)
             if isinstance(e, ast.Call) and call_tail(e) in QUOTERS and e.args:
@@ -482,7 +603,7 @@ def run(rep):
         if ok:
             q = query_pieces[0]
             if isinstance(q, ast.Name):
-                asg = [s_.value for s_ in stmts_of(f.node) if isinstance(s_, ast.Assign) and norm(s_.targets[0]) == q.id]
+                asg = [s_.value for s_ in all_stmts() if isinstance(s_, ast.Assign) and norm(s_.targets[0]) == q.id]
                 ok = bool(asg) and all(query_form_ok(v, q.id) for v in asg) and any(query_form_ok(v) for v in asg)
             else:
                 ok = query_form_ok(q)
